@@ -12,6 +12,8 @@ package store
 // layout was a known one; the input is only consumed from the front; the store invariant is preserved and no
 // weight is removed. Input domain (A-DOM): the decoded counts are finite and non-negative and the decoded indexes
 // fit in 32 bits, as in every prefix of a valid encoding (stated as assumptions after the primitive reads).
+// Relational checks without a stream denotation: the running index is the sum of the deltas read so far (ghost sd)
+// and the total weight grows by exactly the weights read (ghost tw), or by one per index for the index-delta layout.
 //@ func DecodeAndMergeWith
 //@   serves C08 C06 C07
 //@   requires SInv(s) && b != nil
@@ -23,6 +25,13 @@ package store
 //@   ensures SInv(s) && STot(s) >= old(STot(s))
 //@   ensures stable: footprintStable(s) && SConf(s) == old(SConf(s))
 //@   modifies *b, footprint(s)
+//@   ghost sd int := 0
+//@   ghost tw real := 0.0
+//@   after encoding.DecodeVarint64#1 ghost sd := sd + ($result1 == nil ? $result : 0)
+//@   after encoding.DecodeVarint64#2 ghost sd := sd + ($result1 == nil ? $result : 0)
+//@   after encoding.DecodeVarfloat64#1 ghost tw := tw + ($result1 == nil ? $result : 0.0)
+//@   after encoding.DecodeVarfloat64#2 ghost tw := tw + ($result1 == nil ? $result : 0.0)
+//@   ensures weight: result == nil && binEncodingMode != enc.BinEncodingIndexDeltas ==> STot(s) == old(STot(s)) + tw
 //@   after encoding.DecodeUvarint64#1 ghost eof := eof || $result1 != nil
 //@   after encoding.DecodeUvarint64#2 ghost eof := eof || $result1 != nil
 //@   after encoding.DecodeUvarint64#3 ghost eof := eof || $result1 != nil
@@ -37,11 +46,11 @@ package store
 //@   after encoding.DecodeVarint64#1 assume $result1 == nil ==> in32(index + $result)
 //@   after encoding.DecodeVarint64#2 assume $result1 == nil ==> in32(index + $result)
 //@   after encoding.DecodeVarint64#3 assume $result1 == nil ==> in32($result)
-//@   loop 1 invariant !eof && i <= numBins && b != nil && Suffix(b) && SInv(s) && STot(s) >= old(STot(s)) && in32(index) && footprintStable(s) && SConf(s) == old(SConf(s))
+//@   loop 1 invariant index == sd && STot(s) == old(STot(s)) + tw && !eof && i <= numBins && b != nil && Suffix(b) && SInv(s) && STot(s) >= old(STot(s)) && in32(index) && footprintStable(s) && SConf(s) == old(SConf(s))
 //@   loop 1 decreases numBins - i
-//@   loop 2 invariant !eof && i <= numBins && b != nil && Suffix(b) && SInv(s) && STot(s) >= old(STot(s)) && in32(index) && footprintStable(s) && SConf(s) == old(SConf(s))
+//@   loop 2 invariant index == sd && tw == 0.0 && STot(s) == old(STot(s)) + real(i) && !eof && i <= numBins && b != nil && Suffix(b) && SInv(s) && STot(s) >= old(STot(s)) && in32(index) && footprintStable(s) && SConf(s) == old(SConf(s))
 //@   loop 2 decreases numBins - i
-//@   loop 3 invariant !eof && i <= numBins && b != nil && Suffix(b) && SInv(s) && STot(s) >= old(STot(s)) && footprintStable(s) && SConf(s) == old(SConf(s))
+//@   loop 3 invariant STot(s) == old(STot(s)) + tw && !eof && i <= numBins && b != nil && Suffix(b) && SInv(s) && STot(s) >= old(STot(s)) && footprintStable(s) && SConf(s) == old(SConf(s))
 //@   loop 3 decreases numBins - i
 
 // interface level: the same contract (nil result = the block was complete and in a known layout)
